@@ -227,3 +227,157 @@ pub fn c15_silent_peer_expires_exactly_after_timeout() {
     vcover!(a_gone && !b_gone, "only_the_silent_peer_goes");
     witness!();
 }
+
+// ===================================================================================================== C14 (peer-list step)
+fn xaddr(x: u8) -> SocketAddr {
+    SocketAddr(0x0a00 + x as u16)
+}
+/// slice membership over a concrete bound (the lengths are symbolic: `contains` would unwind to the harness bound)
+fn has4(sl: &[SocketAddr], x: SocketAddr) -> bool {
+    let mut r = false;
+    let mut k = 0;
+    while k < 4 {
+        if k < sl.len() && sl[k] == x {
+            r = true;
+        }
+        k += 1;
+    }
+    r
+}
+fn xid(x: u8) -> NodeId {
+    NodeId(0x1d00 + x as u16)
+}
+/// What a node does with a received peer list (GenericCloud::connect_to_peers, extracted whole): EVERY listed entry
+/// that is not yet connected (by any of its addresses), is not the node itself and does not carry the identity of a
+/// connected peer is handed to connect() - wherever it stands in the list; an entry under the node's own identity is
+/// never dialled and its addresses are adopted as own addresses; nothing else is dialled or adopted.
+/// State: `npeers` connected peers (symbolic addresses and identities), one known own address, a list of `nlist`
+/// entries with two symbolic addresses and an optional symbolic identity each.
+fn peer_list_step(npeers: usize, nlist: usize) {
+    let own: u8 = kani::any();
+    let own_addr: u8 = kani::any();
+    let pa: [u8; 2] = kani::any();
+    let pid: [u8; 2] = kani::any();
+    let la: [u8; 3] = kani::any();
+    let lb: [u8; 3] = kani::any();
+    let lid: [u8; 3] = kani::any();
+    let lhas: [bool; 3] = kani::any();
+    // representation invariant of the node: peer-table keys are distinct; no connected peer carries the own identity
+    kani::assume(npeers < 2 || pa[0] != pa[1]);
+    let mut m = XMesh { node_id: xid(own), peers: Default::default(), own_addresses: SmallVec::new(), dialled: smallvec::ivec::IVec::new() };
+    // own_addresses holds 4 inline: with three entries (2 + 1 + 1 addresses) the node starts without a known own address
+    let n_own = if nlist < 3 { 1 } else { 0 };
+    if n_own == 1 {
+        m.own_addresses.push(xaddr(own_addr));
+    }
+    let mut j = 0;
+    while j < npeers {
+        kani::assume(pid[j] != own);
+        m.peers.insert(xaddr(pa[j]), XPeerId { node_id: xid(pid[j]) });
+        j += 1;
+    }
+    let mut list: smallvec::ivec::IVec<PeerInfo, 3> = smallvec::ivec::IVec::new();
+    let mut i = 0;
+    while i < nlist {
+        let mut addrs: AddrList = SmallVec::new();
+        addrs.push(xaddr(la[i]));
+        if i == 0 {
+            // the first entry carries two addresses, the others one (own_addresses holds 4 inline: 1 + 2 + 1)
+            addrs.push(xaddr(lb[i]));
+        } else {
+            kani::assume(lb[i] == la[i]);
+        }
+        list.push(PeerInfo { node_id: if lhas[i] { Some(xid(lid[i])) } else { None }, addrs });
+        i += 1;
+    }
+    let r = crate::vh_common::okf(m.connect_to_peers(list.as_slice()));
+    assert!(r.is_some());
+    // reference: per entry, from the statement of the property
+    let mut eligible = [false; 3];
+    let mut is_self = [false; 3];
+    let mut n_eligible = 0;
+    let mut i = 0;
+    while i < nlist {
+        let mut connected = false;
+        let mut known_id = false;
+        let mut j = 0;
+        while j < npeers {
+            connected |= pa[j] == la[i] || pa[j] == lb[i];
+            known_id |= lhas[i] && pid[j] == lid[i];
+            j += 1;
+        }
+        is_self[i] = !connected && lhas[i] && lid[i] == own;
+        eligible[i] = !connected && !(lhas[i] && lid[i] == own) && !known_id;
+        if eligible[i] {
+            n_eligible += 1;
+        }
+        i += 1;
+    }
+    // every eligible entry is dialled, wherever it stands in the list ...
+    assert!(m.dialled.len() == n_eligible);
+    let mut i = 0;
+    while i < nlist {
+        if eligible[i] {
+            assert!(has4(m.dialled.as_slice(), xaddr(la[i])));
+        }
+        if is_self[i] {
+            // ... an entry under the own identity is adopted, not dialled
+            assert!(has4(m.own_addresses.as_slice(), xaddr(la[i])) && has4(m.own_addresses.as_slice(), xaddr(lb[i])));
+        }
+        i += 1;
+    }
+    // ... and nothing else is dialled or adopted (loops over concrete bounds: lengths are symbolic)
+    assert!(m.dialled.len() <= nlist);
+    let mut k = 0;
+    while k < nlist {
+        if k < m.dialled.len() {
+            let d = m.dialled.as_slice()[k];
+            let mut ok = false;
+            let mut i = 0;
+            while i < nlist {
+                ok |= eligible[i] && d == xaddr(la[i]);
+                i += 1;
+            }
+            assert!(ok);
+        }
+        k += 1;
+    }
+    assert!(m.own_addresses.len() <= 4 && m.own_addresses.len() >= n_own);
+    assert!(n_own == 0 || m.own_addresses[0] == xaddr(own_addr));
+    let mut k = n_own;
+    while k < 4 {
+        if k < m.own_addresses.len() {
+            let a = m.own_addresses[k];
+            let mut ok = false;
+            let mut i = 0;
+            while i < nlist {
+                ok |= is_self[i] && (a == xaddr(la[i]) || a == xaddr(lb[i]));
+                i += 1;
+            }
+            assert!(ok);
+        }
+        k += 1;
+    }
+    assert!(m.peers.len() == npeers);
+    vcover!(nlist >= 2 && npeers >= 1 && !eligible[0] && !is_self[0] && eligible[1], "connected_entry_before_unknown_entry");
+    vcover!(nlist >= 1 && is_self[0], "own_entry_listed");
+    std::mem::forget(m);
+    std::mem::forget(list);
+    witness!();
+}
+#[cfg_attr(kani, kani::proof, kani::unwind(6))]
+pub fn c14_peer_list_step_p1_l2() {
+    peer_list_step(1, 2)
+}
+#[cfg_attr(kani, kani::proof, kani::unwind(6))]
+pub fn c14_peer_list_step_p2_l2() {
+    peer_list_step(2, 2)
+}
+#[cfg_attr(kani, kani::proof, kani::unwind(6))]
+pub fn c14_peer_list_step_p2_l3() {
+    peer_list_step(2, 3)
+}
+#[cfg_attr(kani, kani::proof, kani::unwind(6))]
+pub fn c14_peer_list_step_p0_l1() {
+    peer_list_step(0, 1)
+}
